@@ -4,8 +4,9 @@ from __future__ import annotations
 import ast
 
 from fdlstatic import cfg as cfg_lib
-from fdlstatic.ctx import Ctx
+from fdlstatic.ctx import Ctx, kwarg
 from fdlstatic.model import AnalysisError, unparse, walk_function, walk_stmts
+from fdlstatic import roles
 from fdlstatic.report import RuleSet
 from fdlstatic.rules import c03
 
@@ -139,12 +140,77 @@ def run(ctx: Ctx, rs: RuleSet, tier: str):
            'constant tuple such as ((1, 1), (2, 2)) is then treated as an '
            'identity-bearing node, and == depends on whether equal constants '
            'happen to be the same object', ctx.loc(ii, ii.node))
+  vp = ii.params[0]
+  exact = any(isinstance(c, ast.Compare) and len(c.ops) == 1 and isinstance(
+      c.ops[0], ast.Is) and unparse(c.left) == f'type({vp})' and unparse(
+          c.comparators[0]) == 'tuple' for c in walk_function(ii.node))
+  loose = [c for c in walk_function(ii.node) if isinstance(c, ast.Call) and
+           unparse(c.func) in ('isinstance', 'issubclass') and len(
+               c.args) == 2 and 'tuple' in unparse(c.args[1])]
+  rs.check(exact and not loose, rule_i, f'{ii.qualname}:exact-tuple',
+           'only exact tuples are internable (type(value) is tuple)'
+           if exact and not loose else
+           'the tuple case is tested with isinstance: NamedTuple instances '
+           '(not interned by Python, identity-bearing like any other object) '
+           'are then compared without regard to sharing, so == holds between '
+           'a configuration that shares one NamedTuple and one that holds two '
+           'equal ones although they build different object graphs',
+           ctx.loc(ii, loose[0] if loose else ii.node))
   used = any(isinstance(c, ast.Call) and unparse(c.func).endswith(
       'is_internable') for c in walk_function(ctx.func(
           f'{DAG}.MemoizedTraversal.apply').node))
   rs.check(used, rule_i, f'{DAG}.MemoizedTraversal.apply:uses',
            'the un-memoized path of the sharing comparison is selected by '
            'is_internable', '', nontrivial=False)
+
+  # ---- the defaults consulted by == belong to the current callable
+  rule_s = 'DEFUSE.signature-info'
+  rs.declare(rule_s, 'a Buildable\'s __signature_info__ is always a new '
+             'SignatureInfo of the signature of the callable it holds', 3)
+  n_sites = 0
+  for q, f in sorted(p.funcs.items()):
+    if f.is_lambda or not q.startswith('fiddle._src.'):
+      continue
+    for c in ctx.calls(f):
+      if not (isinstance(c.func, ast.Attribute) and
+              c.func.attr == '__setattr__'):
+        continue
+      consts = [i for i, a in enumerate(c.args) if isinstance(
+          a, ast.Constant) and a.value == '__signature_info__']
+      if not consts:
+        continue
+      n_sites += 1
+      val = c.args[consts[0] + 1] if len(c.args) > consts[0] + 1 else None
+      ok = False
+      why = 'stored value not understood'
+      exprs = [val] if not isinstance(val, ast.Name) else roles.defs_of(
+          f, val.id)
+      if val is not None and exprs:
+        ok = True
+        for e in exprs:
+          fresh = (isinstance(e, ast.Call) and unparse(e.func).endswith(
+              'SignatureInfo') and kwarg(e, 'signature') is not None)
+          sig_ok = False
+          if fresh:
+            sig = kwarg(e, 'signature')
+            sdefs = [sig] if not isinstance(sig, ast.Name) else roles.defs_of(
+                f, sig.id)
+            sig_ok = bool(sdefs) and all(
+                isinstance(d, ast.Call) and unparse(d.func).endswith(
+                    'get_signature') for d in sdefs)
+          if not (fresh and sig_ok):
+            ok = False
+            why = (f'`{unparse(e)[:60]}` is stored as the signature '
+                   'information: it is not a SignatureInfo built from '
+                   'get_signature(<the callable>) - an object carried over '
+                   'from another callable keeps that callable\'s default '
+                   'values, and == (unset vs. explicitly set to the default) '
+                   'and default materialisation read them')
+      rs.check(ok, rule_s, f'{q}:__signature_info__',
+               'SignatureInfo(signature=get_signature(<callable>))' if ok
+               else why, ctx.loc(f, c))
+  if n_sites < 3:
+    raise AnalysisError(f'only {n_sites} stores of __signature_info__ found')
 
   # ---- SYM
   rule = 'SYM.compare-buildable'
